@@ -245,6 +245,12 @@ func Main(t *testing.T) {
 	}
 	os.MkdirAll(tmp, 0755)
 	quietStdout()
+	// First use of a timer initialises a runtime setting behind a sync.Once. Done here, on the test's
+	// own goroutine, it is ordered before everything else; done first by a task and then by the scheduler
+	// (whose synchronisation events the race detector is told to ignore) it is reported as a race inside
+	// the Go runtime.
+	time.NewTimer(time.Hour).Stop()
+	time.NewTicker(time.Hour).Stop()
 	confs := c.Confs
 	if len(confs) == 0 {
 		confs = []string{"nominal", "faulted"}
